@@ -54,6 +54,17 @@ int main(int argc,char **argv)
 		std::string pkey=nm(1+R(names));
 		bool page_pending=false;
 		if(page_mode) {
+			// dependencies recorded BEFORE the page is looked up (e.g. in an init() hook) belong to the page too
+			int pre=R(3);
+			for(int n=0;n<pre;n++) {
+				std::string k=nm(1+R(names));
+				if(R(2)) { c.add_trigger(k); tr.line(vt::J().s("e","AddTrig").s("t",k).str()); }
+				else {
+					std::string v; bool hit=c.fetch_frame(k,v,false);
+					vt::J j; j.s("e","FFetch").s("k",k).b("notrig",false).b("hit",hit); if(hit) j.i("v",unval(v));
+					tr.line(j.str());
+				}
+			}
 			bool hit=c.fetch_page(pkey);
 			vt::J j; j.s("e","FetchPage").s("key",pkey).b("hit",hit);
 			if(hit) { ctx->response().finalize(); j.i("v",unval(output)); }
